@@ -56,6 +56,16 @@ THEOREMS = [
     'Nb.C08.codec_lift',
     'Nb.C08.codec_lift_volume',
     'Nb.C08.gen_constants_ok',
+    'Nb.C08.tck_any_chunking',
+    'Nb.C08.tck_chunkedG_inst',
+    'Nb.C08.tck_complete_roundtrip',
+    'Nb.C08.trk_prefix_per_read',
+    'Nb.C08.trk_per_read_inst',
+    'Nb.C08.tck_buffer_size_ok',
+    'Nb.C08.tck_shipped_buffer_derived',
+    'Nb.C08.header_refusal_total',
+    'Nb.C08.load_vs_class_loader',
+    'Nb.C08.header_decision_plain',
 ]
 ASSUMPTIONS = [
     'hand-written Lean model of the readers (Model/C08.lean: load/sniff, WrapStruct size check, NIfTI extension '
@@ -79,13 +89,24 @@ ASSUMPTIONS = [
     'end-of-stream behaviour of decompressors: Src fixes it per file object (lax / strict); the volume readers are '
     'additionally proved for a PER-READ decision (ReadsOf: every request independently delivers the available part or '
     'raises, a function of the request (pos, n)): volume_prefix_per_read, pair_prefix_per_read, '
-    'segments_prefix_per_read via monotonicity (result = lax result or error). TRK/TCK/partial-slice readers are proved '
-    'for the two pure behaviours only (nibabel cannot write compressed tractograms)',
+    'segments_prefix_per_read via monotonicity (result = lax result or error). TRK: trk_prefix_per_read (same ReadsOf '
+    'contract). TCK: tck_any_chunking under the WEAKER contract ShortReadsOf (every readinto of the data loop may deliver '
+    'fewer bytes than available, or raise; the header line scan is line iteration over the available bytes, with an '
+    'arbitrary raise). The partial-slice readers are proved for the two pure behaviours only',
     'np.memmap refuses (ValueError) a map longer than the file; OS mmap / page cache are not modelled',
     'nibabel cannot WRITE compressed TCK/TRK (seek in write mode) so tractograms are swept uncompressed only',
     'TCK chunk loop: modelled (tckChunkLoop) and proved equal to the whole-buffer model for every buffer size that is a '
-    'positive multiple of 12; the shipped buffer size is MEASURED by regen() (recording file object) and re-checked by '
-    'the proof; the real loop is run with small buffers by changing the default of TckFile._read at run time',
+    'positive multiple of 12; the shipped buffer size is MEASURED by regen() (recording file object) AND derived: the '
+    'statement `buffer_size += coordinate_size - (buffer_size % coordinate_size)` and `coordinate_size = 3 * itemsize` are '
+    'translated from the AST of the working tree (Gen.tckBufAdjust / Gen.tckCoordSize, Python ints as Int; a tiny '
+    'expression translator in c08.py, trusted), proved to yield a positive multiple of the coordinate size for every '
+    'requested size (tck_buffer_size_ok) and to reproduce the measured value (tck_shipped_buffer_derived); '
+    '`int(buffer_size * MEGABYTE)` is evaluated by Python for the default argument; the real loop is run with small '
+    'buffers by changing the default of TckFile._read at run time, and over short-reading file objects (tck-shortread)',
+    'scaled storage (loader-matrix stream): the expected data are what the COMPLETE file yields through the same entry '
+    'point (nib.load picks Spm2AnalyzeImage for an SPM99 pair and scales in float64, the class loader in float32), after '
+    'checking against the array handed to the writer within one quantisation step',
+    'SPM .mat side-car (scipy.io.loadmat) is swept by the oracle only (it cannot change voxel data)',
     'an exception raised while canonicalising what nibabel RETURNED (e.g. a GIFTI data array without data) is classified '
     'DIFFERENT, not exception',
 ]
@@ -98,6 +119,12 @@ RULE = ('one case = (file spec, member, compression, mode, cut k[, access varian
         '(pairs: header and image member, CIFTI-2 (oracle only), keep_file_open), tck-chunked (the chunk loop of '
         'TckFile._read run with 12..60-byte buffers: every cut of the data part, lazy/eager/class loader/file '
         'object/.streamlines pass), trk-access (scalars x properties, point-row boundaries of every record +-2). '
+        'loader-matrix (every loader entry point: nib.load / Class.from_filename / Class.load / module load / from_file_map / '
+        'from_bytes / through the other member x every member file hdr / img / SPM .mat x every header cut and every '
+        'structural boundary +-1 incl. zero-length, data stored SCALED in an integer type), tck-shortread (TckFile._read over '
+        'a file object whose readintos deliver short or raise, per schedule), trk-raise (file object raising beyond byte T), '
+        'hdrtab (header phase of nib.load and of the class loader on every length of a real header: decision table). '
+        'Quick thins cuts strictly inside the opaque regions of the 1000-byte TRK header to every 8th. '
         'Thorough: every prefix of several random specs per class. Non-trivial when 0 < k < len; distinct by (format, '
         'shape/streamline layout, compression, member, mode, access, byte order, offset, k).')
 
@@ -140,6 +167,10 @@ def make_array(spec):
     rs = np.random.RandomState(spec.get('seed', 0))
     shape = tuple(spec['shape'])
     dt = np.dtype(spec['dtype'])
+    if spec.get('scaled'):
+        # float data stored with a scale factor (and intercept where the format has one) in the integer on-disk
+        # type `dtype` — the usual SPM / NIfTI case
+        return rs.randint(-1000, 1000, size=shape) * 0.37 + 11.5
     if dt.kind in 'iu':
         info = np.iinfo(dt)
         return rs.randint(max(info.min, -1000), min(info.max, 1000) + 1, size=shape).astype(dt)
@@ -180,6 +211,8 @@ def write_files(spec, d):
             img = K(arr, np.diag([2., 3., 4., 1.]), header=hdr)
         else:
             img = K(arr, np.diag([2., 3., 4., 1.]))
+        if spec.get('scaled'):
+            img.set_data_dtype(np.dtype(spec['dtype']))
         for i, n in enumerate(spec.get('exts', [])):
             img.header.extensions.append(
                 nib.nifti1.Nifti1Extension('comment', bytes((65 + (i + j) % 26) for j in range(n))))
@@ -199,7 +232,10 @@ def write_files(spec, d):
         if fmt in PAIRS:
             p = os.path.join(d, 'f.img' + comp)
             img.to_filename(p)
-            return {'image': p, 'header': os.path.join(d, 'f.hdr' + comp)}, expect
+            files = {'image': p, 'header': os.path.join(d, 'f.hdr' + comp)}
+            if os.path.exists(os.path.join(d, 'f.mat' + comp)):
+                files['mat'] = os.path.join(d, 'f.mat' + comp)      # SPM: affine side-car
+            return files, expect
         p = os.path.join(d, 'f.nii' + comp)
         img.to_filename(p)
         return {'image': p}, expect
@@ -319,7 +355,15 @@ def read_raw(spec, path, mode, slicer=None, how=''):
             src = path
             if 'fobj' in flags:
                 src = fobj = open(path, 'rb')
-            tf = (K.load if 'cls' in flags or 'fobj' in flags else nst.load)(src, lazy_load=bool(mode))
+            for fl in flags:
+                if fl.startswith('sch'):      # short-reading file object (TCK): schedule for the data-loop readintos
+                    toks = [t for t in fl[3:].split('.') if t]
+                    bsz = [int(x[3:]) for x in flags if x.startswith('buf')][0]
+                    raw = open(path, 'rb').read()
+                    src = fobj = _SchedFile(raw, toks, sched_off(spec), bsz)
+                elif fl.startswith('thr'):    # file object raising on every request that reaches beyond byte T
+                    src = fobj = _ThrFile(open(path, 'rb').read(), int(fl[3:]))
+            tf = (K.load if 'cls' in flags or fobj is not None else nst.load)(src, lazy_load=bool(mode))
             tr = tf.tractogram
             if mode:
                 if 'strm' in flags:
@@ -351,6 +395,19 @@ def read_raw(spec, path, mode, slicer=None, how=''):
         img = nib.load(path)
     elif 'cls' in flags:
         img = klass_of(fmt).from_filename(path, **kw)
+    elif 'kload' in flags:            # Class.load
+        img = klass_of(fmt).load(path, **kw)
+    elif 'modload' in flags:          # the module-level loader (nib.spm99analyze.load, nib.nifti1.load, ...)
+        import importlib
+        modload = importlib.import_module(klass_of(fmt).__module__).load
+        # nifti1.load / nifti2.load take the file name only (memory mapping on, single file or pair)
+        img = modload(path) if fmt in NIFTI else modload(path, **kw)
+    elif 'fmap' in flags:             # Class.from_file_map over the file names
+        K_ = klass_of(fmt)
+        img = K_.from_file_map(K_.filespec_to_file_map(str(path)), **kw)
+    elif 'bytes' in flags:            # Class.from_bytes of the (truncated) file content (single files)
+        with open(path, 'rb') as f_:
+            img = klass_of(fmt).from_bytes(f_.read())
     else:
         img = nib.load(path, **kw)
     if mode == 2:
@@ -366,6 +423,48 @@ def read_raw(spec, path, mode, slicer=None, how=''):
     if 'asarray' in flags:
         return np.asarray(img.dataobj)
     return np.asanyarray(img.dataobj)
+
+
+class _SchedFile(__import__('io').BytesIO):
+    """a file object whose `readinto` may deliver fewer bytes than available: the call at data position
+    `off + i * bsz` obeys token i of the schedule (`f` in full, `r` raise, a number: at most that many bytes)"""
+    def __init__(self, data, toks, off, bsz):
+        super().__init__(data)
+        self._toks, self._off, self._bsz = toks, off, bsz
+
+    def readinto(self, b):
+        pos = self.tell()
+        tok = 'f'
+        if pos >= self._off:
+            i = (pos - self._off) // self._bsz
+            if i < len(self._toks):
+                tok = self._toks[i]
+        if tok == 'r':
+            raise OSError('scheduled failure of the file object')
+        if tok == 'f':
+            return super().readinto(b)
+        return super().readinto(memoryview(b)[:min(len(b), int(tok))])
+
+
+class _ThrFile(__import__('io').BytesIO):
+    """a file object that raises on every request reaching beyond byte T (a decompressor noticing damage)"""
+    def __init__(self, data, thr):
+        super().__init__(data)
+        self._thr = thr
+
+    def read(self, n=-1):
+        if n is None or n < 0 or self.tell() + n > self._thr:
+            raise OSError('file object refuses to read beyond byte %d' % self._thr)
+        return super().read(n)
+
+    def readinto(self, b):
+        if self.tell() + len(b) > self._thr:
+            raise OSError('file object refuses to read beyond byte %d' % self._thr)
+        return super().readinto(b)
+
+
+def sched_off(spec):
+    return tck_layout(spec)['off']
 
 
 def canon(spec, got):
@@ -473,7 +572,7 @@ def place(spec, member, k):
         raw = ent['raw'][m]
         with open(os.path.join(d2, os.path.basename(p)), 'wb') as f:
             f.write(raw[:k] if m == member else raw)
-    return d2, os.path.join(d2, os.path.basename(ent['files'][member]))
+    return d2, os.path.join(d2, os.path.basename(ent['files']['image' if member == 'mat' else member]))
 
 
 def open_codec(path, comp):
@@ -708,14 +807,18 @@ def mk_case(spec, member, mode, k, stream='prefix', slicer=None, how=''):
         elif mode in (3, 4) and fmt != 'cifti2':
             isz = np.dtype(spec['dtype']).itemsize
             tail = f"s:{isz}:{','.join(map(str, spec['shape']))}:{fmt_slicer(slicer)}"
-        # Class.from_filename does not go through load(): no sniff of the header file
-        sniff = 0 if 'cls' in how.split('+') else L['sniff']
+        # Class.from_filename / Class.load / module load / from_file_map / from_bytes do not go through
+        # nib.load(): no sniff of the header file
+        sniff = 0 if set(how.split('+')) & CLASS_ENTRY else L['sniff']
         line = (f"C08 vol {L['hs']} {sniff} {L['exts']} {fixed} {L['ftr']} {mem} {L['e0']} {pl} {L['pad']} "
                 f"{L['n']} {L['fl']} {mm} {int(bool(comp))} {tail} {k} {m} {st}")
     elif fmt == 'trk':
         npts = ','.join(map(str, spec['npts'])) or '-'
         cnt = '0' if spec.get('count0') else '_'
         line = f"C08 trk {spec.get('nsc', 0)} {spec.get('npr', 0)} {npts} {cnt} 0 {k} {m} {st}"
+        for fl in how.split('+'):
+            if fl.startswith('thr'):       # the reader over a file object raising beyond byte T
+                line = f"C08 trkg {spec.get('nsc', 0)} {spec.get('npr', 0)} {npts} {k} {m} {int(fl[3:])}"
     elif fmt == 'tck':
         L = tck_layout(spec)
         npts = ','.join(map(str, spec['npts'])) or '-'
@@ -723,6 +826,11 @@ def mk_case(spec, member, mode, k, stream='prefix', slicer=None, how=''):
         for fl in how.split('+'):
             if fl.startswith('buf'):       # the chunked loop of `_read` with this buffer size
                 line = f"C08 tckb {int(fl[3:])} {','.join(L['lines']) or '-'} {npts} {k} {m} {st}"
+        for fl in how.split('+'):
+            if fl.startswith('sch'):       # `_read` over a short-reading file object
+                bsz = [int(x[3:]) for x in how.split('+') if x.startswith('buf')][0]
+                sched = ','.join(t for t in fl[3:].split('.') if t) or '-'
+                line = f"C08 tckg {bsz} {','.join(L['lines']) or '-'} {npts} {k} {m} {sched}"
     elif fmt == 'gifti':
         L = xml_layout(spec)
         line = f"C08 xml {len(plain)} {L['root_end']} {k} {m} {st}"
@@ -732,7 +840,9 @@ def mk_case(spec, member, mode, k, stream='prefix', slicer=None, how=''):
     key = None if k in (0, total) else (fmt, shape_key, spec.get('dtype'), tuple(spec.get('exts', [])), comp,
                                         spec.get('nsc', 0), spec.get('npr', 0), member, mode, k,
                                         fmt_slicer(slicer) if slicer is not None else None, how,
-                                        spec.get('endian'), spec.get('pad'))
+                                        spec.get('endian'), spec.get('pad'), spec.get('scaled'))
+    if member == 'mat':
+        line = None       # SPM affine side-car (scipy.io.loadmat): never touches the voxel data — oracle only
     if fmt == 'cifti2' and mode in (3, 4):
         line = None       # partial reads of CIFTI-2: oracle only (same ArrayProxy/fileslice code as NIfTI-2)
     if stream == 'codec-ambiguous':
@@ -740,7 +850,77 @@ def mk_case(spec, member, mode, k, stream='prefix', slicer=None, how=''):
     return Case(line, data, key, stream, extra)
 
 
+CLASS_ENTRY = {'cls', 'kload', 'modload', 'fmap', 'bytes'}
+_SCALED = {}
+
+
+def scaled_expect(spec, mode, how):
+    """Scaled storage is lossy: 'the data written' are the quantised values in the file.  Expected = what the
+    COMPLETE file gives through the same access path, after checking (independently of the reader's scaling code
+    path: only a tolerance of one quantisation step) that this is the array handed to the writer."""
+    # (the entry point matters: nib.load picks Spm2AnalyzeImage for an SPM99 pair and scales in float64, the
+    #  Spm99 class loader in float32)
+    datahow = how
+    key = (spec_key(spec), mode, datahow)
+    if key not in _SCALED:
+        ent = files_of(spec)
+        arr = make_array(spec)
+        try:
+            got = read_raw(spec, ent['files']['image'], mode, None, datahow)
+            info = np.iinfo(np.dtype(spec['dtype']))
+            step = (arr.max() - arr.min()) / (int(info.max) - int(info.min)) * 1.01 + 1e-3
+            ok = got.shape == arr.shape and ('unscaled' in datahow.split('+') or np.allclose(got, arr, rtol=1e-5, atol=step))
+            _SCALED[key] = canon_arr(got) if ok else b'COMPLETE FILE DOES NOT HOLD THE DATA WRITTEN'
+        except Exception as e:  # noqa: BLE001
+            _SCALED[key] = b'COMPLETE FILE UNREADABLE ' + repr(e).encode()
+    return _SCALED[key]
+
+
+def mk_hdrtab(fmt, n, stream='hdrtab'):
+    """header phase of nib.load (sniff) and of the class loader on the first `n` bytes of a real header file of an
+    extension-less class: accept / refuse, against the model's decision table"""
+    spec = {'fmt': fmt, 'shape': [2, 2, 2], 'dtype': 'int16', 'seed': 1}
+    L = vol_layout(spec)
+    fixed = '_' if L['fixed'] is None else str(L['fixed'])
+    line = f"C08 hdrtab {L['hs']} {L['sniff']} 0 {fixed} {L['ftr']} {n} 0"
+    return Case(line, {'op': 'hdrtab', 'fmt': fmt, 'n': n, 'stream': stream}, ('hdrtab', fmt, n), stream, {})
+
+
+def impl_hdrtab(case):
+    d = case.data
+    fmt, n = d['fmt'], d['n']
+    spec = {'fmt': fmt, 'shape': [2, 2, 2], 'dtype': 'int16', 'seed': 1}
+    ent = files_of(spec)
+    member = 'header' if fmt in PAIRS else 'image'
+    K = klass_of(fmt)
+    _COUNTER[0] += 1
+    d2 = os.path.join(_tmp(), 't%d' % _COUNTER[0])
+    os.mkdir(d2)
+    try:
+        path = os.path.join(d2, os.path.basename(ent['files'][member]))
+        with open(path, 'wb') as f:
+            f.write(ent['raw'][member][:n])
+        try:
+            with open(path, 'rb') as f:
+                K.header_class.from_fileobj(f)
+            cls = 'K'
+        except Exception:  # noqa: BLE001
+            cls = 'X'
+        try:
+            maybe = K.path_maybe_image(path)[0]
+        except Exception:  # noqa: BLE001
+            maybe = False
+        ld = 'K' if (maybe and cls == 'K') else 'X'
+    finally:
+        shutil.rmtree(d2, ignore_errors=True)
+    hs = K.header_class.template_dtype.itemsize if fmt != 'mgh' else K.header_class._hdrdtype.itemsize
+    case.extra = dict(case.extra or {}, hs=hs)
+    return f"{ld} {cls} {int(n < hs or n < K._meta_sniff_len)}"
+
+
 def case_from_data(d):
+    if d.get('op') == 'hdrtab':
+        return mk_hdrtab(d['fmt'], d['n'], d.get('stream', 'hdrtab'))
     return mk_case(d['spec'], d['member'], d['mode'], d['k'], d.get('stream', 'prefix'), d.get('slicer'),
                    d.get('how', ''))
 
@@ -776,6 +956,8 @@ def slice_runs(spec, off, slicers=None):
 
 def impl(case):
     d = case.data
+    if d.get('op') == 'hdrtab':
+        return impl_hdrtab(case)
     spec, member, mode, k = d['spec'], d['member'], d['mode'], d['k']
     how = d.get('how', '')
     ent = files_of(spec)
@@ -788,6 +970,8 @@ def impl(case):
             expect = canon_arr(full[slicer_of(d['slicer'])])
         if spec['fmt'] in ('tck', 'trk') and 'strm' in how.split('+'):
             expect = _SLAB[spec_key(spec)]
+        if spec.get('scaled'):
+            expect = scaled_expect(spec, mode, how)
         if in_child:
             cls, err = _CHILD.run(spec, path, mode, expect, None, how)
         else:
@@ -800,6 +984,13 @@ def impl(case):
 
 def oracle(case, out):
     d = case.data
+    if d.get('op') == 'hdrtab':
+        hs = (case.extra or {}).get('hs')
+        toks = out.split(' ')
+        if hs is not None and d['n'] < hs and 'K' in toks[:2]:
+            return (f"a header file of {d['n']} bytes — shorter than the {hs}-byte binary block of {d['fmt']} — was accepted "
+                    f"(nib.load phase {toks[0]}, class loader {toks[1]})")
+        return None
     spec, k = d['spec'], d['k']
     total = (case.extra or {}).get('total')
     if total is None:
@@ -817,7 +1008,13 @@ def oracle(case, out):
     cls = out.split(' ')[0]
     if cls == 'CRASH':
         return f'interpreter crashed while loading a truncated file: {what}: {(case.extra or {}).get("err")}'
-    if k == total:
+    hostile = False
+    for fl in (d.get('how') or '').split('+'):
+        if fl.startswith('sch') and any(t != 'f' for t in fl[3:].split('.') if t):
+            hostile = True      # the FILE OBJECT delivers short reads / raises: the complete file may be refused
+        if fl.startswith('thr') and int(fl[3:]) < total:
+            hostile = True
+    if k == total and not hostile:
         if cls != 'E':
             return f'the COMPLETE file does not read back as the data written ({cls} {(case.extra or {}).get("err")}): {what}'
         return None
@@ -832,6 +1029,8 @@ def oracle(case, out):
 
 def signature(case, what):
     d = case.data
+    if d.get('op') == 'hdrtab':
+        return f"{d['fmt']}:short-header-accepted"
     spec, k = d['spec'], d['k']
     fmt = spec['fmt']
     if 'crashed' in what:
@@ -860,6 +1059,8 @@ def shrink_candidates(case):
 
 def _shrink_candidates(case):
     d = case.data
+    if d.get('op') == 'hdrtab':
+        return
     spec = dict(d['spec'])
     if spec['fmt'] in ('tck', 'trk') and len(spec['npts']) > 1:
         for i in range(len(spec['npts'])):
@@ -943,7 +1144,7 @@ def bounds_of(spec):
     return xml_layout(spec)['bounds']
 
 
-def sweep(rng, spec, every, nsample, out, stream='prefix', skip_modes=()):
+def sweep(rng, spec, every, nsample, out, stream='prefix', skip_modes=(), thin_trk_header=False):
     fmt = spec['fmt']
     ent = files_of(spec)
     for member in members_of(fmt):
@@ -957,6 +1158,11 @@ def sweep(rng, spec, every, nsample, out, stream='prefix', skip_modes=()):
                     ks.update(range(b - 2, b + 3))
             ks.update(rng.randrange(0, total + 1) for _ in range(nsample))
             ks = sorted(k for k in ks if 0 <= k <= total)
+        if thin_trk_header and fmt == 'trk':
+            # quick tier: `_read_header` fetches the 1000-byte TRK header with ONE readinto and looks at five fields;
+            # cuts strictly inside the opaque regions are thinned to every 8th (+ every field boundary +-2)
+            near = {k for b in bounds_of(spec) for k in range(b - 2, b + 3)}
+            ks = [k for k in ks if k >= 986 or k % 8 == 0 or k in near or k < 4]
         for mode in modes_of(fmt):
             if mode in skip_modes:
                 continue
@@ -982,9 +1188,9 @@ def cases(rng, tier):
                 big = fmt == 'cifti2' or (fmt == 'gifti' and comp not in ('', '.gz'))
                 every = tier == 'thorough' or not (big and tier == 'quick')
                 skip = (2,) if tier == 'quick' and fmt in ('nifti2pair', 'spm99', 'spm2') else ()
-                sweep(rng, spec, every, 200, out, skip_modes=skip)
+                sweep(rng, spec, every, 200, out, skip_modes=skip, thin_trk_header=(tier == 'quick'))
     # TRK: empty tractogram (header-only file; 998/999-byte prefixes load as the same empty tractogram)
-    sweep(rng, {'fmt': 'trk', 'npts': [], 'seed': 1}, True, 0, out, 'trk-empty')
+    sweep(rng, {'fmt': 'trk', 'npts': [], 'seed': 1}, True, 0, out, 'trk-empty', thin_trk_header=(tier == 'quick'))
     # TRK: header count 0 = unknown (correspondence only; D is the documented behaviour)
     sweep(rng, {'fmt': 'trk', 'npts': [2, 1, 2], 'seed': 2, 'count0': 1}, tier != 'quick', 150, out, 'trk-count0')
     # TCK: empty tractogram
@@ -1026,6 +1232,7 @@ def cases(rng, tier):
             for k in ks:
                 out.append(mk_case(spec, 'image', 3 + si % 2, k, 'multi-segment', sl))
     extra_streams(rng, tier, out)
+    more_streams(rng, tier, out)
     return out
 
 
@@ -1142,7 +1349,165 @@ def extra_streams(rng, tier, out):
                 out.append(mk_case(spec, 'image', mode, k, 'trk-access', None, how))
 
 
+def entry_points(fmt):
+    """every way to get an image object from the file name(s)"""
+    if fmt in ('nifti1', 'nifti2', 'mgh'):
+        return ['', 'cls', 'kload', 'modload', 'fmap', 'bytes']
+    if fmt in ('nifti1pair', 'nifti2pair'):
+        return ['', 'cls', 'kload', 'modload', 'fmap', 'cross+cls']
+    return ['', 'cls', 'kload', 'modload', 'fmap', 'cross+kload']
+
+
+def more_streams(rng, tier, out):
+    """phase-4 dimensions: loader entry point x member file x cut; scaled storage; short-reading / raising file
+    objects for the tractogram readers; the header-refusal decision table."""
+    quick = tier == 'quick'
+    # --- loader matrix
+    fm = ['nifti1', 'nifti2', 'nifti1pair', 'nifti2pair', 'analyze', 'spm99', 'spm2', 'mgh']
+    for i, fmt in enumerate(fm):
+        spec = {'fmt': fmt, 'shape': rng.choice([[2, 2, 2], [3, 2, 2], [2, 3, 1]]), 'seed': rng.randrange(1, 10 ** 6)}
+        if fmt in ('analyze', 'mgh'):
+            spec['dtype'] = rng.choice(['int16', 'uint8', 'float32'])
+        else:
+            spec['dtype'] = 'int16' if fmt.startswith('spm') else rng.choice(['int16', 'uint8', 'int16'])
+            spec['scaled'] = 1
+        if fmt in NIFTI and rng.randrange(2):
+            spec['exts'] = [rng.choice([5, 24])]
+        ent = files_of(spec)
+        eps = entry_points(fmt)
+        r = rng.randrange(len(eps))
+        for member in sorted(ent['files']):
+            total = len(ent['raw'][member])
+            bnds = set() if member == 'mat' else {b for b in bounds_of(spec) if 0 <= b <= total}
+            key = {0, 1, total - 1, total} | bnds
+            if member == 'header' or (member == 'mat' and not quick):
+                ks = range(total + 1)
+            elif member == 'mat':
+                ks = sorted(set(range(0, total + 1, 3)) | key)
+            else:
+                ks = bound_cuts(rng, spec, member, 4 if quick else 40, 1)
+            if quick and member == 'header' and fmt in ('nifti2pair',):
+                ks = sorted(set(range(0, total + 1, 2)) | key)
+            for k in ks:
+                hows = eps if (k in key and (not quick or k in (0, total) or (k + r) % 2)) else [eps[(k + r) % len(eps)]]
+                for j, how in enumerate(hows):
+                    if 'bytes' in how and member != 'image':
+                        continue
+                    mode = 0 if 'bytes' in how else (k + j + r) % 2
+                    if 'modload' in how and fmt in NIFTI:
+                        mode = 1          # nifti1.load(filename): no mmap argument, the default (on) applies
+                    out.append(mk_case(spec, member, mode, k, 'loader-matrix', None, how))
+    # --- TCK `_read` over a short-reading file object (every chunking of the byte stream)
+    for v in range(2 if quick else 8):
+        spec = {'fmt': 'tck', 'npts': [rng.choice([1, 2, 3, 4]) for _ in range(rng.choice([2, 3, 4]))],
+                'seed': rng.randrange(1, 10 ** 6)}
+        total = len(files_of(spec)['raw']['image'])
+        off = tck_layout(spec)['off']
+        for bsz in ([12, 24] if quick else [12, 24, 36, 60]):
+            nchunks = (total - off) // bsz + 2
+            for rep_ in range(80 if quick else 200):
+                k = total if rep_ % 3 else rng.randrange(off, total + 1)
+                toks = ['f'] * nchunks
+                for _ in range(rng.choice([1, 1, 2])):
+                    toks[rng.randrange(nchunks)] = rng.choice(['r', '0', '4', '7', '12', str(bsz - 12), str(bsz - 1),
+                                                               str(bsz), '11', '13'])
+                while toks and toks[-1] == 'f':
+                    toks.pop()
+                how = f"buf{bsz}+sch{'.'.join(toks)}"
+                out.append(mk_case(spec, 'image', rep_ % 2, k, 'tck-shortread', None, how))
+            out.append(mk_case(spec, 'image', 0, total, 'tck-shortread', None, f'buf{bsz}+sch'))
+    # --- TRK over a file object that raises beyond byte T
+    for v in range(1 if quick else 4):
+        spec = {'fmt': 'trk', 'npts': [rng.choice([1, 2, 3]) for _ in range(rng.choice([2, 3]))],
+                'seed': rng.randrange(1, 10 ** 6)}
+        if v % 2:
+            spec['nsc'], spec['npr'] = 1, 2
+        total = len(files_of(spec)['raw']['image'])
+        bnds = [b for b in trk_layout(spec)['bounds'] if b >= 996]
+        for T in sorted({total, total + 5, 999, 1000} | set(bnds) | {b + 1 for b in bnds} | {b - 1 for b in bnds}):
+            for k in sorted({total, T, min(total, T + 4)} | ({rng.choice(bnds)} if bnds else set())):
+                if 0 <= k <= total:
+                    out.append(mk_case(spec, 'image', (T + k) % 2, k, 'trk-raise', None, f'thr{T}'))
+    # --- header-refusal decision table (extension-less classes), real header prefix of every length
+    for fmt in ['analyze', 'spm99', 'spm2', 'mgh']:
+        spec = {'fmt': fmt, 'shape': [2, 2, 2], 'dtype': 'int16', 'seed': 1}
+        ent = files_of(spec)
+        total = len(ent['raw']['header' if fmt in PAIRS else 'image'])
+        hs = vol_layout(spec)['hs']
+        ns = range(0, min(total, hs + 3) + 1)
+        if quick and fmt in ('spm99', 'spm2'):
+            ns = sorted(set(range(0, hs + 3, 3)) | {hs - 1, hs, hs + 1} & set(range(total + 1)))
+        for n in ns:
+            if n <= total:
+                out.append(mk_hdrtab(fmt, n))
+
+
 # ------------------------------------------------------------------ generated constants
+
+def _ast_int_expr(node, names):
+    """a pure-integer Python expression over the variables `names` -> Lean `Int` term (anything else: ValueError)"""
+    import ast
+    if isinstance(node, ast.Constant) and type(node.value) is int:
+        return f'({node.value} : Int)'
+    if isinstance(node, ast.Name) and node.id in names:
+        return names[node.id]
+    if isinstance(node, ast.Attribute) and ast.unparse(node) in names:
+        return names[ast.unparse(node)]
+    if isinstance(node, ast.BinOp):
+        op = {ast.Add: '+', ast.Sub: '-', ast.Mult: '*', ast.Mod: '%', ast.FloorDiv: '/'}.get(type(node.op))
+        if op is None:
+            raise ValueError(ast.dump(node.op))
+        return f'({_ast_int_expr(node.left, names)} {op} {_ast_int_expr(node.right, names)})'
+    if isinstance(node, ast.UnaryOp) and isinstance(node.op, ast.USub):
+        return f'(-{_ast_int_expr(node.operand, names)})'
+    raise ValueError(ast.dump(node))
+
+
+def tck_buffer_ast(tck):
+    """The statements of `TckFile._read` that turn the `buffer_size` argument into the number of bytes per
+    `readinto`, taken from the AST of the working tree.  Untranslatable source -> the definitions become 0 and
+    the obligations about them fail."""
+    import ast
+    import inspect
+    import textwrap
+    out = dict(coord='0', coord_src='?', adjust='0', adjust_src=['UNTRANSLATABLE'], default=None, mega=0,
+               requested=0, itemsize=0)
+    try:
+        fn = ast.parse(textwrap.dedent(inspect.getsource(tck.TckFile._read.__func__))).body[0]
+        default = inspect.signature(tck.TckFile._read).parameters['buffer_size'].default
+        out['default'], out['mega'] = default, tck.MEGABYTE
+        cur = 'buffer_size'
+        srcs, seen_int = [], False
+        for st in fn.body:
+            if isinstance(st, ast.Assign) and len(st.targets) == 1 and isinstance(st.targets[0], ast.Name):
+                tgt = st.targets[0].id
+                if tgt == 'coordinate_size':
+                    out['coord'] = _ast_int_expr(st.value, {'dtype.itemsize': 'itemsize'})
+                    out['coord_src'] = ast.unparse(st.value)
+                elif tgt == 'buffer_size':
+                    if not seen_int:
+                        if ast.unparse(st.value) != 'int(buffer_size * MEGABYTE)':
+                            raise ValueError(ast.unparse(st))
+                        seen_int = True
+                        out['requested'] = int(default * tck.MEGABYTE)
+                    else:
+                        cur = _ast_int_expr(st.value, {'buffer_size': cur, 'coordinate_size': 'coordinate_size'})
+                        srcs.append(ast.unparse(st))
+            elif isinstance(st, ast.AugAssign) and isinstance(st.target, ast.Name) and st.target.id == 'buffer_size':
+                if not seen_int:
+                    raise ValueError(ast.unparse(st))
+                op = {ast.Add: '+', ast.Sub: '-', ast.Mult: '*'}[type(st.op)]
+                rhs = _ast_int_expr(st.value, {'buffer_size': cur, 'coordinate_size': 'coordinate_size'})
+                cur = f'({cur} {op} {rhs})'
+                srcs.append(ast.unparse(st))
+        if not seen_int or not srcs:
+            raise ValueError('buffer_size statements not found')
+        out['adjust'], out['adjust_src'] = cur, ['`' + x + '`' for x in srcs]
+        out['itemsize'] = np.dtype('<f4').itemsize
+    except Exception as e:  # noqa: BLE001
+        out['adjust'], out['adjust_src'] = '0', ['UNTRANSLATABLE: ' + repr(e)[:80].replace('-/', '')]
+    return out
+
 
 def regen():
     nib = _nib()
@@ -1172,6 +1537,7 @@ def regen():
     tck_buf = sizes[0] if sizes else 0
     sig = inspect.signature(nib.filebasedimages.FileBasedImage.path_maybe_image)
     sniff_max = sig.parameters['sniff_max'].default
+    buf = tck_buffer_ast(tck)
     body = f'''import NibabelModel.Model.C08
 /-! GENERATED by harness/props/c08.py from the working tree of nibabel — do not edit. -/
 namespace Nb.C08.Gen
@@ -1196,6 +1562,17 @@ def tckEofDelim : List Nat := {list(tck.TckFile.EOF_DELIMITER.astype('<f4').toby
 def skipThresh : Nat := {nib.fileslice.SKIP_THRESH}
 /-- bytes per `readinto` of `TckFile._read` with its default `buffer_size` (measured on the running code) -/
 def tckBufferBytes : Nat := {tck_buf}
+
+/-! `buffer_size` arithmetic of `TckFile._read`, translated from the AST of the working tree
+    (Python ints -> `Int`; `%` with a positive divisor is `Int.emod`): -/
+/-- `coordinate_size = {buf['coord_src']}` -/
+def tckCoordSize (itemsize : Int) : Int := {buf['coord']}
+/-- {'; '.join(buf['adjust_src'])} -/
+def tckBufAdjust (buffer_size coordinate_size : Int) : Int := {buf['adjust']}
+/-- `int(buffer_size * MEGABYTE)` for the default `buffer_size={buf['default']!r}`, `MEGABYTE = {buf['mega']}` -/
+def tckBufRequested : Nat := {buf['requested']}
+/-- item size of the dtypes `_read_header` accepts (`Float32LE` / `Float32BE`) -/
+def tckItemSize : Nat := {buf['itemsize']}
 
 end Nb.C08.Gen
 '''
